@@ -203,6 +203,7 @@ def run(ck, ctx):
         ck.ob("C01.6", "pass1-sizes", sorted(sizes) == [("const", 1), ("word_len",)], "pass 1 advances by %s (required: 1 per instruction, word_len per directive)" % sizes, "src/asm.rs:%s" % st.line)
     ck.include("C23", ctx, "C01.7", {"C23.1", "C23.2"}, "label addresses are looked up under one key discipline")
     ck.include("C35", ctx, "C01.8", None, "offsets stored in instructions satisfy the Offset invariant")
+    ck.include("C02", ctx, "C01.9", {"C02.2"}, "'every well-formed program assembles to the image its statements denote': which blocks pass 1 accepts (a block may end exactly at xFE00)")
     ck.assume("contents of run-time containers (block map keys, vectors) are not decided; .orig bookkeeping across several blocks is covered only through C02's guards")
     ck.assume("Offset invariant (C35)")
 
